@@ -59,7 +59,7 @@ RULE = (
     "window offsets); non-trivial = >= 2 exons or coding or minus strand or a chunk that does not start at 0."
 )
 SCOPE = {"quick": {"GS": 5, "K": 3, "CDS": 4, "NR": 9000, "NALL": 160},
-         "thorough": {"GS": 6, "K": 3, "CDS": None, "NR": 16000, "NALL": 800}}
+         "thorough": {"GS": 6, "K": 3, "CDS": None, "NR": 60000, "NALL": 2400}}
 EXHAUSTIVE_SCOPE = {t: f"exon layouts over {s['GS']} positions, <= {s['K']} exons, chromosome {s['GS'] + 4}, all overlapping windows"
                     for t, s in SCOPE.items()}
 FLOOR = {"quick": 8000, "thorough": 100000}
